@@ -95,16 +95,45 @@ theorem perm_flatMap_memFlush (d : TableDef) : ∀ parts : List (List Row),
     · exact List.Perm.refl _
     · exact sortStable_perm _ _
 
-/-- **INSERT adds exactly its rows** (as stored) to its table and nothing to any other, for any
-partition into row-sets. -/
+theorem storeRow_of_noNull : ∀ (cols : List ColDesc) (r : Row), noNullIn cols r = true → storeRow cols r = r
+  | [], _, _ => by simp [storeRow]
+  | _ :: _, [], _ => by simp [storeRow]
+  | c :: cs, v :: vs, h => by
+    simp only [noNullIn, Bool.and_eq_true, Bool.not_eq_true'] at h
+    simp only [storeRow, h.1, Bool.false_eq_true, if_false, storeRow_of_noNull cs vs h.2]
+
+theorem map_storeRow_of_ok (d : TableDef) (rows : List Row) (h : rowsOk d rows = true) :
+    rows.map (storeRow d.cols) = rows := by
+  induction rows with
+  | nil => rfl
+  | cons r rs ih =>
+    simp only [rowsOk, List.all_cons, Bool.and_eq_true] at h
+    simp only [List.map_cons, storeRow_of_noNull _ _ h.1]
+    congr 1
+    exact ih h.2
+
+/-- an INSERT that violates NOT NULL is rejected and changes nothing -/
+theorem insert_rejected (s : Store) (n : String) (parts : List (List Row)) (tid : Nat) (d : TableDef)
+    (h1 : s.tableId? n = some tid) (h2 : lookup tid s.tables = some d) (hok : rowsOk d parts.flatten = false) :
+    s.insert n parts = (s, .err "not-null") := by
+  simp [Store.insert, h1, h2, hok]
+
+/-- **INSERT adds exactly its rows** to its table and nothing to any other, for any partition into
+row-sets (`hok`: the statement passed the NOT NULL check - otherwise `insert_rejected`). -/
 theorem insert_scan (s : Store) (wf : Wf s) (n : String) (parts : List (List Row)) (tid : Nat) (d : TableDef)
-    (h1 : s.tableId? n = some tid) (h2 : lookup tid s.tables = some d) :
+    (h1 : s.tableId? n = some tid) (h2 : lookup tid s.tables = some d) (hok : rowsOk d parts.flatten = true) :
     let s' := (s.insert n parts).1
     Wf s' ∧ s'.cat = s.cat ∧ s'.tables = s.tables ∧ (s.insert n parts).2 = .ok parts.flatten.length ∧
-    (s'.scan tid).Perm (s.scan tid ++ parts.flatten.map (storeRow d.cols)) ∧
+    (s'.scan tid).Perm (s.scan tid ++ parts.flatten) ∧
     ∀ t, t ≠ tid → s'.scan t = s.scan t := by
   have hkeys := flushDirs_keys d tid parts s.nextRs
-  simp only [Store.insert, h1, h2]
+  have hmapid := map_storeRow_of_ok d parts.flatten hok
+  suffices hraw : (let s' := (s.insert n parts).1
+      Wf s' ∧ s'.cat = s.cat ∧ s'.tables = s.tables ∧ (s.insert n parts).2 = .ok parts.flatten.length ∧
+      (s'.scan tid).Perm (s.scan tid ++ parts.flatten.map (storeRow d.cols)) ∧
+      ∀ t, t ≠ tid → s'.scan t = s.scan t) by
+    rw [hmapid] at hraw; exact hraw
+  simp only [Store.insert, h1, h2, hok, Bool.not_true, Bool.false_eq_true, if_false]
   refine ⟨?_, rfl, rfl, ?_, ?_, ?_⟩
   · constructor
     · intro x hx
